@@ -5,6 +5,7 @@ import GoLevel.Proofs.LocksPInvB
 import GoLevel.Proofs.LocksPInvC
 import GoLevel.Proofs.LocksPInvD
 import GoLevel.Proofs.LocksPInvE
+import GoLevel.Proofs.LocksPInvF
 /-! Progress (`compactionError` as coded, given the invariants `Good`): while a call is pending some fault-free step is enabled, unless
 the only thing everybody waits for is the user's open transaction. -/
 namespace GoLevel.Locks
